@@ -330,15 +330,13 @@ GCopy(v) == IF v.t \in {"specnull", "missing", "fresh"} THEN Null ELSE v        
 GFail(st, why) == [st |-> st, val |-> Null, res |-> Null, status |-> why]
 
 \* how many headers in the state look at backing bk
-GHeaders(st, bk) ==
-  LET isH(v) == v.t = "arr" /\ v.id = bk
-      inEnv == Cardinality({n \in DOMAIN st.env : isH(st.env[n])})
-      inEntry(e) == CASE e.k = "object" -> Cardinality({k \in DOMAIN e.m : isH(e.m[k])})
-                      [] e.k = "cell" -> IF isH(e.v) THEN 1 ELSE 0
-                      [] OTHER -> 0
-      RECURSIVE sum(_)
-      sum(i) == IF i = 0 THEN 0 ELSE inEntry(st.heap[i]) + sum(i - 1)
-  IN inEnv + sum(Len(st.heap))
+GIsHdr(v, bk) == v.t = "arr" /\ v.id = bk
+GHdrsIn(e, bk) == CASE e.k = "object" -> Cardinality({k \in DOMAIN e.m : GIsHdr(e.m[k], bk)})
+                    [] e.k = "cell" -> IF GIsHdr(e.v, bk) THEN 1 ELSE 0
+                    [] OTHER -> 0
+RECURSIVE GHdrSum(_, _, _)
+GHdrSum(heap, bk, i) == IF i = 0 THEN 0 ELSE GHdrsIn(heap[i], bk) + GHdrSum(heap, bk, i - 1)
+GHeaders(st, bk) == Cardinality({n \in DOMAIN st.env : GIsHdr(st.env[n], bk)}) + GHdrSum(st.heap, bk, Len(st.heap))
 
 \* Go's append(), one element at a time, up to length newlen
 RECURSIVE GGrow(_, _, _, _)
